@@ -204,14 +204,43 @@ def _opt(s):
 
 
 @st.composite
-def gen_kwargs(draw, name: str, r: int, c: int, defaults_only: bool = False):
-    """accepted keyword arguments of each generator, read off the signatures/docstrings"""
+def gen_kwargs(draw, name: str, r: int, c: int, defaults_only: bool = False, solvable: bool = False):
+    """accepted keyword arguments of each generator, read off the signatures/docstrings.
+
+    `solvable=True` keeps to arguments that leave a component of >= 2 cells around the start (needed to draw endpoints)"""
     if defaults_only or name == "gen_wilson":
         return {}
     rc = r * c
     kw: dict = {}
     frac = st.sampled_from([0.0, 0.1, 0.25, 0.5, 0.75, 0.9, 1.0]) | st.floats(0, 1, allow_nan=False)
     pvals = st.sampled_from([0.0, 1.0, 0.1, 0.3, 0.4, 0.5, 0.7, 0.9]) | st.floats(0, 1, allow_nan=False)
+    if solvable:
+        lo = min(1.0, 2.0 / rc + 1e-9)
+        frac = st.sampled_from([x for x in [0.25, 0.5, 0.75, 0.9, 1.0] if x >= lo] or [1.0]) | st.floats(lo, 1, allow_nan=False)
+        pvals = st.sampled_from([1.0, 0.5, 0.7, 0.9]) | st.floats(0.5, 1, allow_nan=False)
+        cnt = st.integers(2, rc + 3)
+        depth = st.integers(2, 2 * rc + 2)
+        if name in ("gen_dfs", "gen_prim"):
+            if draw(st.booleans()):
+                kw["accessible_cells"] = draw(cnt | frac)
+            if draw(st.booleans()):
+                kw["max_tree_depth"] = draw(depth | st.just(1.0))
+            if draw(st.booleans()):
+                kw["do_forks"] = draw(st.booleans())
+            if name == "gen_dfs" and draw(st.booleans()):
+                kw["randomized_stack"] = draw(st.booleans())
+        elif name == "gen_percolation":
+            kw["p"] = draw(pvals)
+        elif name == "gen_dfs_percolation":
+            if draw(st.booleans()):
+                kw["p"] = draw(st.sampled_from([0.0, 0.1, 0.4, 1.0]) | st.floats(0, 1, allow_nan=False))
+            if draw(st.booleans()):
+                kw["accessible_cells"] = draw(cnt)
+            if draw(st.booleans()):
+                kw["max_tree_depth"] = draw(depth)
+        if name != "gen_wilson" and draw(st.booleans()):
+            kw["start_coord"] = [draw(st.integers(0, r - 1)), draw(st.integers(0, c - 1))]
+        return kw
     startc = st.tuples(st.integers(0, r - 1), st.integers(0, c - 1)).map(list)
     if name in ("gen_dfs", "gen_prim"):
         if draw(st.booleans()):
@@ -322,7 +351,7 @@ def dataset_spec(draw, n_lo=2, n_hi=6, mazes_lo=0, mazes_hi=8, ctors=None, with_
         "grid_n": n,
         "n_mazes": draw(st.integers(mazes_lo, mazes_hi)),
         "ctor": ctor,
-        "kwargs": draw(gen_kwargs(ctor, n, n)) if draw(st.booleans()) else {},
+        "kwargs": draw(gen_kwargs(ctor, n, n, solvable=satisfiable_bias)) if draw(st.booleans()) else {},
         "seed": draw(st.sampled_from([42, 0, 1, 7, 123456, 2**31 - 1]) | st.integers(0, 2**31 - 1)),
     }
     if with_endpoint and draw(st.booleans()):
